@@ -1663,8 +1663,9 @@ class _RowTimeout(Exception):
 
 
 class time_limit:
-    """Wall-clock bound for one comparison (a source shape that makes the terms or the case splits explode ends as "no verdict" for that
-    routine, the other routines are still analysed).  Nested inside the whole check's own alarm, which is re-armed with what is left of it."""
+    """CPU-time bound for one comparison (a source shape that makes the terms or the case splits explode ends as "no verdict" for that
+    routine, the other routines are still analysed).  CPU time of this process, not wall-clock: a loaded machine must not turn a routine that
+    is analysed in seconds into "no verdict".  Nested inside the whole check's own CPU timer, which is re-armed with what is left of it."""
 
     def __init__(self, seconds: int):
         self.seconds = seconds
@@ -1672,10 +1673,10 @@ class time_limit:
     def __enter__(self):
         import signal
         import time
-        self._signal, self._t0 = signal, time.time()
+        self._signal, self._t0 = signal, time.process_time()
         try:
-            self._old = signal.getsignal(signal.SIGALRM)
-            self._left = signal.alarm(0)
+            self._old = signal.getsignal(signal.SIGPROF)
+            self._left = signal.setitimer(signal.ITIMER_PROF, 0)[0]
         except ValueError:  # not in the main thread
             self._old = None
             return self
@@ -1683,18 +1684,18 @@ class time_limit:
         def handler(_s, _f):
             raise _RowTimeout()
 
-        signal.signal(signal.SIGALRM, handler)
-        signal.alarm(self.seconds if not self._left else max(1, min(self.seconds, self._left - 5)))
+        signal.signal(signal.SIGPROF, handler)
+        signal.setitimer(signal.ITIMER_PROF, self.seconds if not self._left else max(1, min(self.seconds, self._left - 5)))
         return self
 
     def __exit__(self, *exc):
         import time
         if self._old is None:
             return False
-        self._signal.alarm(0)
-        self._signal.signal(self._signal.SIGALRM, self._old)
+        self._signal.setitimer(self._signal.ITIMER_PROF, 0)
+        self._signal.signal(self._signal.SIGPROF, self._old)
         if self._left:
-            self._signal.alarm(max(1, int(self._left - (time.time() - self._t0))))
+            self._signal.setitimer(self._signal.ITIMER_PROF, max(1, self._left - (time.process_time() - self._t0)))
         return False
 
 
